@@ -114,8 +114,43 @@ type scenarioT struct {
 	Roles   []string    `json:"roles"`
 	HK      []hkT       `json:"hk"`
 	Inline  []inlineOpT `json:"inline"`
-	CloseAt int         `json:"close_at"`        // Server.Close() is called once this percentage of the client goroutines has finished
-	Focus   string      `json:"focus,omitempty"` // "" (mix) | "wills" | "expiry": the scenario kind most goroutines are given
+	CloseAt int         `json:"close_at"`          // Server.Close() is called once this percentage of the client goroutines has finished
+	Focus   string      `json:"focus,omitempty"`   // "" (mix) | "wills" | "expiry": the scenario kind most goroutines are given
+	Stalled *stalledT   `json:"stalled,omitempty"` // the 'stalled-reader' kind (C32 only), run next to everything else
+}
+
+// stalledT is the scenario kind 'stalled-reader': one extra client over a BOUNDED connection (keepalive 0, so the broker
+// sets no deadline) subscribes to t/# and then stops reading; a helper publishes until a broker Write to it is blocked
+// (the writer sits inside conn.Write holding the client lock). Then the trigger happens, and from then on only the
+// broker closing that connection can release the blocked write:
+//
+//	disconnect   the stalled client writes DISCONNECT (its read direction still works)
+//	half-close   the harness half-closes its side (the broker reads EOF; the blocked write stays blocked)
+//	reset        the harness resets the connection (the blocked write fails: the easy case)
+//	takeover     another connection connects with the same client id
+//	server-close nothing until Server.Close()
+//
+// The harness never drains or closes the stalled connection afterwards. Progress = every handler returns and Close returns.
+type stalledT struct {
+	Variant string `json:"variant"`
+	Ver     byte   `json:"ver"`
+	Qos     byte   `json:"qos"`   // of the stalled client's subscription
+	Limit   int    `json:"limit"` // send-buffer size of the stalled connection in bytes
+	Size    int    `json:"size"`  // payload size of the helper's publishes
+	Clean   bool   `json:"clean"` // clean start of the stalled client and of the connection that takes it over
+}
+
+var stalledVariants = []string{"disconnect", "half-close", "reset", "takeover", "server-close"}
+
+func genStalled(t *rapid.T) *stalledT {
+	return &stalledT{
+		Variant: rapid.SampledFrom(stalledVariants).Draw(t, "variant"),
+		Ver:     rapid.SampledFrom([]byte{4, 5}).Draw(t, "sver"),
+		Qos:     byte(rapid.IntRange(0, 1).Draw(t, "sqos")),
+		Limit:   rapid.SampledFrom([]int{1, 64, 1024, 4096}).Draw(t, "limit"),
+		Size:    rapid.SampledFrom([]int{16, 300, 3000}).Draw(t, "ssize"),
+		Clean:   rapid.Bool().Draw(t, "sclean"),
+	}
 }
 
 // ---- generator ---------------------------------------------------------------------------------------------
@@ -401,16 +436,22 @@ func scenarioKinds(sc scenarioT) map[string]bool {
 
 // ---- in-memory connection ----------------------------------------------------------------------------------
 
-// memConn is the broker's side of a connection; the client goroutine is the peer. Write never blocks.
+// memConn is the broker's side of a connection; the client goroutine is the peer. In the default mode Write never
+// blocks. In bounded mode (limit > 0) it behaves like a socket with a send buffer of `limit` bytes: Write blocks while
+// the buffer is full, until the peer drains it, resets the connection, or the broker calls Close. A half-close by the
+// peer (it will send nothing more) does not release a blocked Write, as with TCP.
 type memConn struct {
-	mu           sync.Mutex
-	cond         *sync.Cond
-	in           []byte // client -> broker, not yet read
-	out          []byte // broker -> client, not yet taken
-	written      int64  // total bytes the broker wrote (progress)
-	peerClosed   bool
-	peerReset    bool
-	brokerClosed bool
+	limit          int // 0 = unbounded
+	blockedWriters int // Write calls currently waiting for room
+	everBlocked    bool
+	mu             sync.Mutex
+	cond           *sync.Cond
+	in             []byte // client -> broker, not yet read
+	out            []byte // broker -> client, not yet taken
+	written        int64  // total bytes the broker wrote (progress)
+	peerClosed     bool
+	peerReset      bool
+	brokerClosed   bool
 }
 
 func newMemConn() *memConn {
@@ -444,6 +485,12 @@ func (c *memConn) Read(p []byte) (int, error) {
 func (c *memConn) Write(p []byte) (int, error) {
 	c.mu.Lock()
 	defer c.mu.Unlock()
+	for c.limit > 0 && len(c.out) >= c.limit && !c.brokerClosed && !c.peerReset {
+		c.blockedWriters++
+		c.everBlocked = true
+		c.cond.Wait()
+		c.blockedWriters--
+	}
 	if c.brokerClosed {
 		return 0, net.ErrClosed
 	}
@@ -491,9 +538,15 @@ func (c *memConn) take() (b []byte, closed bool) {
 	c.mu.Lock()
 	b, c.out = c.out, nil
 	closed = c.brokerClosed
+	if c.limit > 0 {
+		c.cond.Broadcast() // room again
+	}
 	c.mu.Unlock()
 	return
 }
+
+// writeBlocked: a Write of the broker is waiting for room right now.
+func (c *memConn) writeBlocked() bool { c.mu.Lock(); defer c.mu.Unlock(); return c.blockedWriters > 0 }
 
 func (c *memConn) progress() int64 { c.mu.Lock(); defer c.mu.Unlock(); return c.written }
 
@@ -538,6 +591,7 @@ type resultT struct {
 	Spans        map[string]kindSpan `json:"spans"`
 	WallMs       int64               `json:"wall_ms"`
 	StallAfterMs int64               `json:"stall_after_ms,omitempty"` // how long the progress vector had not moved when the stall was declared
+	StalledDone  bool                `json:"stalled_done,omitempty"`   // the stalled-reader goroutine ran to its end
 }
 
 const earlyStallWindow = 3 * time.Second
@@ -605,8 +659,11 @@ func (r *runner) guard(what string) {
 	}
 }
 
-func (r *runner) open(st map[string]int64) *clientState {
+func (r *runner) open(st map[string]int64) *clientState { return r.openLimited(0) }
+
+func (r *runner) openLimited(limit int) *clientState {
 	c := newMemConn()
+	c.limit = limit
 	r.connMu.Lock()
 	r.conns = append(r.conns, c)
 	r.connMu.Unlock()
@@ -897,6 +954,85 @@ func (r *runner) clientMain(i int) {
 	}
 }
 
+// stalledMain runs the 'stalled-reader' kind (see stalledT).
+func (r *runner) stalledMain(p stalledT, st map[string]int64) {
+	const id = "stalled-reader"
+	waitFor := func(cs *clientState, key string, want int64, d time.Duration) bool {
+		for t0 := time.Now(); st[key] < want && !cs.dead && time.Since(t0) < d; {
+			if cs.pump(st, false) == 0 {
+				time.Sleep(100 * time.Microsecond)
+			}
+		}
+		return st[key] >= want
+	}
+	if r.lst.closed.Load() {
+		return
+	}
+	s := r.openLimited(p.Limit)
+	s.ver, s.ack = p.Ver, "none"
+	s.sendPk(&refmqtt.Packet{Type: refmqtt.CONNECT, ProtocolName: "MQTT", Level: p.Ver, CleanStart: p.Clean, ClientID: id, KeepAlive: 0})
+	if !waitFor(s, "connack", 1, 3*time.Second) {
+		st["stalled:not-connected"]++
+		s.c.closePeer(true)
+		return
+	}
+	s.sendPk(&refmqtt.Packet{Type: refmqtt.SUBSCRIBE, PacketID: 1, Filters: []refmqtt.Filter{{Filter: "t/#", QoS: p.Qos}}})
+	// SUBACK is type 9: the lenient pump does not count it, so give the broker a moment and go on
+	for t0 := time.Now(); time.Since(t0) < 20*time.Millisecond; time.Sleep(time.Millisecond) {
+		s.pump(st, false)
+	}
+	// from here on the stalled client does not read any more; the helper publishes until a broker write is blocked
+	h := r.openLimited(0)
+	h.ver, h.ack = 4, "all"
+	h.sendPk(&refmqtt.Packet{Type: refmqtt.CONNECT, ProtocolName: "MQTT", Level: 4, CleanStart: true, ClientID: "stalled-helper", KeepAlive: 0})
+	waitFor(h, "connack", 2, 3*time.Second)
+	blocked := false
+	for i := 0; i < 400 && !blocked && !h.dead; i++ {
+		h.sendPk(&refmqtt.Packet{Type: refmqtt.PUBLISH, Topic: "t/0", Payload: payload(p.Size)})
+		h.pump(st, false)
+		if i%4 == 3 {
+			time.Sleep(200 * time.Microsecond)
+		}
+		blocked = s.c.writeBlocked()
+	}
+	for t0 := time.Now(); !blocked && time.Since(t0) < time.Second; time.Sleep(time.Millisecond) {
+		blocked = s.c.writeBlocked()
+	}
+	if blocked {
+		st["stalled:write-blocked-before-trigger"]++
+	} else {
+		st["stalled:no-blocked-write-seen"]++
+	}
+	st["stalled:variant="+p.Variant]++
+	var taker *clientState
+	switch p.Variant {
+	case "disconnect":
+		s.sendPk(&refmqtt.Packet{Type: refmqtt.DISCONNECT})
+	case "half-close":
+		s.c.closePeer(false)
+	case "reset":
+		s.c.closePeer(true)
+	case "takeover":
+		if !r.lst.closed.Load() {
+			taker = r.openLimited(0)
+			taker.ver, taker.ack = p.Ver, "all"
+			taker.sendPk(&refmqtt.Packet{Type: refmqtt.CONNECT, ProtocolName: "MQTT", Level: p.Ver, CleanStart: p.Clean, ClientID: id, KeepAlive: 0})
+			if waitFor(taker, "connack", 3, 2*time.Second) {
+				st["stalled:taker-connected"]++
+			}
+		}
+	case "server-close":
+	}
+	// give the broker a moment to act on the trigger, then leave: the stalled connection stays open and undrained
+	time.Sleep(2 * time.Millisecond)
+	h.pump(st, true)
+	h.c.closePeer(false)
+	if taker != nil {
+		taker.pump(st, true)
+		taker.c.closePeer(false)
+	}
+}
+
 func (r *runner) clientsDone() (n int) {
 	for i := range r.finished {
 		if r.finished[i].Load() {
@@ -1041,6 +1177,20 @@ func runScenario(in childIn) *resultT {
 		wgClients.Add(1)
 		go func(i int) { defer wgClients.Done(); begin.Wait(); r.clientMain(i) }(i)
 	}
+	var stalledDone atomic.Bool
+	stalledStats := map[string]int64{}
+	if sc.Stalled != nil {
+		wgClients.Add(1)
+		go func() {
+			defer wgClients.Done()
+			defer stalledDone.Store(true)
+			defer r.guard("stalled-reader goroutine")
+			begin.Wait()
+			r.stalledMain(*sc.Stalled, stalledStats)
+		}()
+	} else {
+		stalledDone.Store(true)
+	}
 	wgAux.Add(3)
 	go func() { defer wgAux.Done(); begin.Wait(); r.hkMain(r.stats[n], r.spans[n], &stopAux) }()
 	go func() { defer wgAux.Done(); begin.Wait(); r.inlineMain(r.stats[n+1], r.spans[n+1], &stopAux) }()
@@ -1048,7 +1198,7 @@ func runScenario(in childIn) *resultT {
 		defer wgAux.Done()
 		defer r.guard("closer")
 		begin.Wait()
-		for r.clientsDone()*100 < sc.CloseAt*n {
+		for r.clientsDone()*100 < sc.CloseAt*n || !stalledDone.Load() {
 			time.Sleep(200 * time.Microsecond)
 		}
 		span(r.spans[n+2], "shutdown-during-traffic", r.since())
@@ -1163,6 +1313,12 @@ loop:
 		merge(n)
 		merge(n + 1)
 		merge(n + 2)
+	}
+	if stalledDone.Load() && sc.Stalled != nil {
+		res.StalledDone = true
+		for k, v := range stalledStats {
+			res.Counters[k] += v
+		}
 	}
 	res.Counters["connections-opened"] = r.opened.Load()
 	res.Counters["handlers-returned"] = r.handlers.Load()
